@@ -91,6 +91,8 @@ Proof. intros H. split_body H. unfold t_select_frames. rewrite (agree_shape _ _ 
   destruct (all_lt _ idx); [|reflexivity]. unfold vres; cbn [rmap]. f_equal. apply t_ctor_agree. now apply take0_agree. Qed.
 Lemma tf_select_frames_ni idx b b' : agree_body O b b' -> vres (tf_select_frames O idx b) = vres (tf_select_frames O idx b').
 Proof. intros H. unfold tf_select_frames. destruct idx; [reflexivity|]. now apply t_select_frames_ni. Qed.
+Lemma tf_get_points_ni ic idx b b' : agree_body O b b' -> vres (tf_get_points O ic idx b) = vres (tf_get_points O ic idx b').
+Proof. intros H. unfold tf_get_points. destruct idx; [destruct ic; [now apply t_get_points_ni|reflexivity]|]. now apply t_get_points_ni. Qed.
 
 (* ---- linear transforms ----------------------------------------------------------------------------------- *)
 Lemma np_flip_ni axis b b' : agree_body O b b' -> agree_body O (np_flip O axis b) (np_flip O axis b').
@@ -103,38 +105,23 @@ Proof. intros H. unfold madot. rewrite (agree_l_len O _ _ H). apply tab_ext. int
 Lemma np_matmul_ni E' M b b' : agree_body O b b' -> agree_body O (np_matmul O E' M b) (np_matmul O E' M b').
 Proof. intros H. split_body H. unfold np_matmul. rewrite (agree_shape _ _ Hd), Hc, (madot_eq _ _ _ _ _ (agree_data _ _ Hd)).
   reflexivity. Qed.
-(* Torch / TF: the raw product reads every coordinate of the point, so the mask must be uniform over the
-   coordinate axis (it is, for every body a constructor builds) and the matrix square *)
-Lemma tdot_agree D M l l' : uniform O D l -> agree_l l l' -> agree_l (tdot O D D M l) (tdot O D D M l').
-Proof. intros Hu H. unfold tdot. rewrite (agree_l_len O _ _ H). apply agree_l_tab. intros k.
-  pose proof (rd_vis O _ _ k H) as Hk. apply vis1_eq; cbn [fst snd]. split; [now apply vis1_snd|]. intros Hm.
-  destruct (Nat.eq_dec D 0) as [->|HD]; [reflexivity|].
-  f_equal. apply tab_ext_lt. intros d Hd. f_equal.
-  apply vis1_fst; [now apply rd_vis|].
-  rewrite (Hu (k / D) d Hd), <- (Hu (k / D) (k mod D)) by (now apply Nat.mod_upper_bound).
-  replace (k / D * D + k mod D) with k; [exact Hm|].
-  rewrite (Nat.mul_comm (k / D) D). now apply Nat.div_mod. Qed.
-Lemma t_matmul_ni M b b' : uniform O (lastd (shape (bdat b))) (data (bdat b)) -> agree_body O b b' ->
-  agree_body O (t_matmul O (lastd (shape (bdat b))) M b) (t_matmul O (lastd (shape (bdat b))) M b').
-Proof. intros Hu H. split_body H. unfold t_matmul. rewrite <- (agree_shape _ _ Hd), Hc. apply t_ctor_agree, agree_mkT.
-  apply tdot_agree; [exact Hu|now apply agree_data]. Qed.
-(* the bodies the constructors build are uniform (lengths a multiple of the coordinate extent) *)
+(* Torch / TF: the product reads the stored values of every coordinate of the point, and the row is valid only if all are *)
+Lemma tdot_agree D E' M l l' : agree_l l l' -> agree_l (tdot O D E' M l) (tdot O D E' M l').
+Proof. intros H. unfold tdot. rewrite (agree_l_len O _ _ H). apply agree_l_tab. intros k.
+  pose proof (lane_last_agree O D _ _ (k / E') H) as Hlane.
+  apply vis1_eq; cbn [fst snd]. split; [now apply existsb_snd_agree|]. intros Hm. f_equal.
+  pose proof (map_fst_agree O _ _ Hlane Hm) as Hf. unfold lane_last in Hf. rewrite !map_tab in Hf.
+  unfold tab in *. revert Hf. generalize (seq 0 D). intros s Hf. induction s as [|d s IH]; [reflexivity|].
+  cbn [map] in *. apply cons_inj in Hf. destruct Hf as [H1 H2]. rewrite H1. f_equal. now apply IH. Qed.
+Lemma t_matmul_ni E' M b b' : agree_body O b b' -> agree_body O (t_matmul O E' M b) (t_matmul O E' M b').
+Proof. intros H. split_body H. unfold t_matmul. rewrite <- (agree_shape _ _ Hd), Hc. apply t_ctor_agree, agree_mkT.
+  apply tdot_agree. now apply agree_data. Qed.
+
 Lemma rd_tab n (f : nat -> cell) k : rd (tab n f) k = if Nat.ltb k n then f k else dcell.
 Proof. unfold C09_Masked.rd, tab. destruct (Nat.ltb k n) eqn:Ek.
   - apply Nat.ltb_lt in Ek. rewrite (nth_indep _ dcell (f 0)) by (now rewrite map_length, seq_length).
     rewrite (map_nth f (seq 0 n) 0 k), seq_nth by exact Ek. reflexivity.
   - apply Nat.ltb_ge in Ek. rewrite nth_overflow by (now rewrite map_length, seq_length). reflexivity. Qed.
-Lemma t_ctor_plain_uniform raw conf n : length (data raw) = n * lastd (shape raw) ->
-  uniform O (lastd (shape raw)) (data (bdat (t_ctor_plain O raw conf))).
-Proof. unfold uniform, t_ctor_plain; cbn [bdat data]. intros Hlen i d Hd. set (D := lastd (shape raw)) in *.
-  rewrite !rd_tab, Hlen. destruct (Nat.lt_ge_cases i n) as [Hi|Hi].
-  - assert (H1 : Nat.ltb (i * D + d) (n * D) = true) by (apply Nat.ltb_lt; nia).
-    assert (H2 : Nat.ltb (i * D) (n * D) = true) by (apply Nat.ltb_lt; nia).
-    rewrite H1, H2; cbn [snd]. rewrite Nat.div_mul by lia.
-    rewrite Nat.add_comm, Nat.div_add by lia. rewrite (Nat.div_small d D) by exact Hd. reflexivity.
-  - assert (H1 : Nat.ltb (i * D + d) (n * D) = false) by (apply Nat.ltb_ge; nia).
-    assert (H2 : Nat.ltb (i * D) (n * D) = false) by (apply Nat.ltb_ge; nia).
-    rewrite H1, H2. reflexivity. Qed.
 
 (* ---- zero filling ---------------------------------------------------------------------------------------- *)
 Lemma tmap_agree g a a' : VC1 O g -> agree a a' -> agree (tmap g a) (tmap g a').
